@@ -499,6 +499,12 @@ def _ascii_byte_tests(b, A, bi, lt):
             if bt["kind"] == "call" and (b.callee_q(bt["t"]) or "").endswith("as_bytes") and bt["t"]["args"]:
                 l2 = A.len_term(bt["t"]["args"][0])
                 same = l2 == lt
+            else:
+                # a `&[u8]` parameter that every caller fills with as_bytes() of the string parameter (zones.param_views)
+                rb = b.resolve_place({"l": base_local}, through_named=True)["l"] if not (1 <= base_local <= b.nargs) else base_local
+                if rb in getattr(A, "param_views", {}):
+                    l2 = A.len_term({"c": {"l": A.param_views[rb]}})
+                    same = l2 == lt
             if not same:
                 continue
             edge_t = t["otherwise"]
